@@ -3,7 +3,7 @@
    control code of Tree / HtmlToAst / Element breaks. *)
 From Coq Require Import List NArith Bool Arith Lia.
 From MV Require Import Base.PyStr Base.Res Html.HtmlTypes Gen.Html Html.HtmlModel Html.SrcPrims Gen.HtmlSrc
-  Html.HtmlStore Html.HtmlInv Html.HtmlOps Html.HtmlIso Html.HtmlStripRec.
+  Html.HtmlStore Html.HtmlInv Html.HtmlRound Html.HtmlOps Html.HtmlIso Html.HtmlStripRec.
 Import ListNotations.
 Local Open Scope nat_scope.
 
@@ -533,3 +533,70 @@ Proof.
   destruct (strip_rec_general _ _ _ _ _ _ _ Hvc Hok Ed Es) as [_ R].
   exists f. split; [exact R|]. intro h. eapply stripped_render; exact R.
 Qed.
+
+(* ---------- Tree.__init__, Tree.clear, class Attribute ---------- *)
+
+Lemma tree_init_src_eq name : tree_init_src name = init_tree name.
+Proof. reflexivity. Qed.
+
+Lemma clear_src_eq t name : clear_src t name = init_tree name.
+Proof. reflexivity. Qed.
+
+Lemma attr_getitem_src_eq d k : attr_getitem_src d k = attr_getitem d k.
+Proof. reflexivity. Qed.
+
+Lemma classes_src_eq d : classes_src d = classes d.
+Proof.
+  unfold classes_src, classes, ostr_or. rewrite attr_getitem_src_eq. change [99; 108; 97; 115; 115]%N with s_class.
+  destruct (attr_getitem d s_class) as [[|c s]|]; reflexivity.
+Qed.
+
+(* HtmlToAst(name) followed by feed(): __init__ builds the Tree, feed() clears it and runs the
+   handlers; equal to the modelled call *)
+Theorem tokenize_src_model (name : str) (evs : list event) :
+  build_src (clear_src (tree_init_src name) name) evs = build (init_tree name) evs
+  /\ (forall t, clear_src t name = init_tree name)
+  /\ (forall d k, attr_getitem_src d k = attr_getitem d k)
+  /\ (forall d, classes_src d = classes d).
+Proof.
+  split; [rewrite clear_src_eq; apply build_src_eq; apply binv_init|].
+  split; [intro t; apply clear_src_eq|]. split; [apply attr_getitem_src_eq|apply classes_src_eq].
+Qed.
+
+(* ---------- render ---------- *)
+
+(* the regenerated render methods (the join over the children as a loop, dispatch on the class)
+   return what the modelled render returns, whenever that one returns *)
+Lemma render_src_refines : forall f st i s, render f st i = Ok s -> render_src f st i = Ok s.
+Proof.
+  induction f as [|f IH]; intros st i s H; [discriminate|].
+  rewrite render_unfold in H. cbn [render_src].
+  destruct (get st i) as [c|] eqn:Eg; [|discriminate]. cbn [bind] in H |- *.
+  destruct (render_list f st (c_children c)) as [ks|] eqn:Ek; [|discriminate]. cbn [bind] in H.
+  assert (L : forall ids ks0 (a : list N), render_list f st ids = Ok ks0 ->
+    for_res ids (fun child (__acc : list N) => do __r <- render_src f st child; Ok (__acc ++ __r)) a = Ok (a ++ ks0)).
+  { induction ids as [|k ids IHi]; intros ks0 a Hr; simpl in Hr.
+    - inversion Hr; subst. simpl. rewrite app_nil_r. reflexivity.
+    - destruct (render f st k) as [s0|] eqn:Er; [|discriminate]. cbn [bind] in Hr.
+      destruct (render_list f st ids) as [r|] eqn:Erl; [|discriminate]. cbn [bind] in Hr. inversion Hr; subst ks0.
+      cbn [for_res]. rewrite (IH _ _ _ Er). cbn [bind]. rewrite (IHi r (a ++ s0) eq_refl). rewrite app_assoc. reflexivity. }
+  inversion H; subst s. clear H. unfold render_cell.
+  destruct (c_kind c); try reflexivity.
+  - rewrite (L _ _ [] Ek). cbn [bind app]. reflexivity.
+  - rewrite (L _ _ [] Ek). cbn [bind]. unfold render_Tag. f_equal. simpl. rewrite <- !app_assoc. reflexivity.
+Qed.
+
+(* the exact round trip, entirely on regenerated code: HtmlToAst(name).feed(text) = __init__, clear,
+   the handlers; then render *)
+Theorem roundtrip_src (parse : str -> list event) :
+  (forall hs, wf_doc hs = true -> parse (print_doc hs) = events_doc hs) ->
+  forall (name : str) (hs : list html), wf_doc hs = true ->
+  exists t, build_src (clear_src (tree_init_src name) name) (parse (print_doc hs)) = Ok t
+            /\ render_src (length (t_cells t)) (t_cells t) (t_outmost t) = Ok (print_doc hs).
+Proof.
+  intros O name hs Hwf. destruct (roundtrip parse O name hs Hwf) as [t [Ht Hr]].
+  exists t. split.
+  - rewrite clear_src_eq, build_src_eq by apply binv_init. exact Ht.
+  - apply render_src_refines. exact Hr.
+Qed.
+
